@@ -1163,6 +1163,10 @@ void IGXMLScanner::scanReset(const InputSource& src)
     //  are still there: the new document must not be stacked on top of them.
     fReaderMgr.reset();
 
+    //  A document is XML 1.0 until its XML declaration says otherwise, also
+    //  when the previous one was XML 1.1
+    fXMLVersion = XMLReader::XMLV1_0;
+
     //  This call implicitly tells us that we are going to reuse the scanner
     //  if it was previously used. So tell the validator to reset itself.
     //
